@@ -461,6 +461,66 @@ def rcall (m : Mdl) (k : Nat) (t : RTree) (op : Op) (log : List Step) : Option (
       let b := argmaxV (t1.aV []) (t1.nA [])
       some ({ t1 with v := upd t1.v [] (t1.aV [] b) }, rest)
 
+/-! #### The head node's sampling belief (Utils/rPOMCPGraph.hpp: `HeadBeliefNode`)
+
+  `sampleBelief_` is a vector of `(state, count)` pairs, `beliefSize_` the total the uniform draw ranges over.  The head
+  is built either from a `Belief` (`beliefSize` draws of `sampleProbability`, grouped by state) or from a promoted
+  `BeliefNode` (one pair per entry of its particle map, *including* the zero-count entry `operator[]` may have created
+  for `maxS_`; `beliefSize_` accumulated as the sum of the counts).  The iteration order of the `unordered_map` is an
+  external choice: everything below is stated for the vector as it is. -/
+
+/-- `beliefSize_` as the promotion constructor accumulates it: the sum of the counts -/
+def beliefTotal : List (Nat × Nat) → Nat
+  | [] => 0
+  | (_, c) :: rest => c + beliefTotal rest
+
+/-- `HeadBeliefNode::sampleBelief()` after the draw `pick` (uniform on `[1, beliefSize_]`):
+    `while (true) { pick -= sampleBelief_[index].second; if ( pick < 1 ) return sampleBelief_[index].first; ++index; }`.
+    `none` = the walk leaves the vector (an out-of-bounds read in the C++ code). -/
+def sampleWalk : List (Nat × Nat) → Int → Option Nat
+  | [], _ => none
+  | (s, c) :: rest, pick => if pick - (c : Int) < 1 then some s else sampleWalk rest (pick - (c : Int))
+
+/-- the scan of `HeadBeliefNode::getMostCommonParticle()`: `bestGuessCount = 0`, move on `count > bestGuessCount`;
+    `none` = `bestGuess` was never assigned (the function then returns an uninitialised value) -/
+def mostCommonGo : List (Nat × Nat) → Option Nat → Nat → Option Nat
+  | [], best, _ => best
+  | (s, c) :: rest, best, bc => if bc < c then mostCommonGo rest (some s) c else mostCommonGo rest best bc
+def mostCommon (l : List (Nat × Nat)) : Option Nat := mostCommonGo l none 0
+
+def countOf (l : List (Nat × Nat)) (s : Nat) : Nat :=
+  match l.find? (fun x => x.1 == s) with
+  | some x => x.2
+  | none => 0
+
+def maxCount : List (Nat × Nat) → Nat
+  | [] => 0
+  | (_, c) :: rest => if maxCount rest < c then c else maxCount rest
+
+/-- `l.map (·.1)` has no duplicates (the pairs come out of a map: one per state) -/
+def distinctStates : List (Nat × Nat) → Bool
+  | [] => true
+  | (s, _) :: rest => !(rest.any (fun x => x.1 == s)) && distinctStates rest
+
+/-- checker on the implementation's own head node after `sampleAction(a, o, h)` promoted a child: `head` (the private
+    `sampleBelief_`) holds exactly the entries of the child's particle map `child` (as dumped before the call), once
+    each, and `bsz` (the private `beliefSize_`) is their total and positive -/
+def headOk (child head : List (Nat × Nat)) (bsz : Nat) : Bool :=
+  head.length == child.length && head.all (fun x => child.contains x) && child.all (fun x => head.contains x) &&
+  distinctStates head && distinctStates child &&
+  bsz == beliefTotal head && decide (0 < bsz)
+
+/-- checker on the head node built from a `Belief` with support `support` and `n` requested particles: every listed
+    state has a positive count and positive probability, states are listed once, the counts add up to `n = beliefSize_` -/
+def headFreshOk (support : List Nat) (head : List (Nat × Nat)) (n bsz : Nat) : Bool :=
+  head.all (fun x => support.contains x.1 && decide (0 < x.2)) && distinctStates head &&
+  bsz == beliefTotal head && bsz == n && decide (0 < bsz)
+
+/-- the sum of `f` over a list of particle types -/
+def sumOver (f : Nat → Nat) : List Nat → Nat
+  | [] => 0
+  | x :: xs => f x + sumOver f xs
+
 end R
 
 end AITB.Tree
